@@ -11,7 +11,8 @@ it finished: `RunND` (stepped only while unfinished) is exactly what the batched
 of the instance (`ProbeMasked`, guaranteed by the bundled generator and re-checked by the harness);
 `MDPPEnv._reset` clears the probing ports itself, no hypothesis needed.
 
-FINDING: `MDPPEnv.__init__` does not take `max_decaps` from its generator (`mdpp_ctor_quota_*`).
+`mdpp_ctor_quota`: the environment steps with its generator's `max_decaps` (upstream fix 5c8314b of the
+former finding `mdpp-ctor-quota-C08`).
 -/
 import Rl4co.Proofs.SelectViews
 
@@ -60,20 +61,17 @@ theorem mdpp_probe_never_offered (i : Inst) (hm : i.multi = true) {as : List Nat
     (h : Run env i (env.reset i) as s) (j : Nat) (hp : i.probe j = true) : env.mask i s j = false := by
   rw [mask_eq_history i h j]; simp [allowed0, hm, hp]
 
-/-! #### The constructor finding -/
+/-! #### The constructors -/
 
-/-- Full statement: the environment steps with the quota its generator was configured with. -/
-def mdpp_ctor_quota_statement : Prop := ∀ dflt given : Int, mdppEnvQuota dflt given = given
+/-- **C08 (MDPP), required number**: `MDPPEnv` steps with the quota its generator was configured with,
+whatever the default `DPPGenerator` built by the parent constructor says (fixed upstream in 5c8314b;
+before that the default's value was used: former finding `mdpp-ctor-quota-C08`). -/
+theorem mdpp_ctor_quota (dflt given : Int) : mdppEnvQuota dflt given = given := rfl
 
-theorem mdpp_ctor_quota_counterexample : ¬ mdpp_ctor_quota_statement := by
-  intro h; exact absurd (h 20 3) (by decide)
-
-/-- what does hold: the configured quota is honoured iff it equals the default generator's -/
-theorem mdpp_ctor_quota_partial (dflt given : Int) : mdppEnvQuota dflt given = given ↔ given = dflt := by
-  simp [mdppEnvQuota, eq_comm]
-
-/-- `DPPEnv` itself honours it. -/
+/-- `DPPEnv` likewise. -/
 theorem dpp_ctor_quota (dflt given : Int) : dppEnvQuota dflt given = given := rfl
+
+example : mdppEnvQuota 20 3 = 3 := by decide
 
 /-- Non-vacuity: a 2×2 grid, cell 3 the probing port (cleared in the instance mask), cell 1 keep-out,
 quota 2: `[2, 0]` is a complete episode. -/
